@@ -113,6 +113,9 @@ struct Client {
   bool done = false;
   bool token = false;
   uint64_t last_rx_seq = 0;  // hand-over seq of the last frame received (frames captured after it are still on their way)
+  // after a period of inattention the client is behind ("keeps up" no longer holds) until one of its reads had to wait:
+  // only then has it consumed everything that piled up; frames the daemon dropped for it meanwhile are its own loss
+  bool behind = false; uint64_t behind_from = 0;
 };
 
 struct Universe {
@@ -455,6 +458,12 @@ struct ClientRunner {
   void end_interval() {
     if (c.iv.empty() || c.iv.back().end_seq != ~0ull) return;
     c.iv.back().end_seq = u.next_seq();
+    if (c.behind) { HarnessScope hs; c.iv.back().inattentive.push_back({c.behind_from, c.iv.back().end_seq}); c.behind = false; }
+  }
+  void inattentive(uint64_t a, uint64_t b) {
+    HarnessScope hs;
+    c.iv.back().inattentive.push_back({a, b});
+    if (!c.behind) { c.behind = true; c.behind_from = b; }
   }
   void drop(const char* why) {
     u.ctx.log("client %d: connection lost (%s)", c.idx, why);
@@ -494,7 +503,11 @@ struct ClientRunner {
     for (int n = 0; n < count && !u.ctx.failed && c.connected; n++) {
       vbi_capture_buffer* sb = nullptr;
       struct timeval tv; tv.tv_sec = 1; tv.tv_usec = 0;
+      int64_t t0 = u.k.now_ns(); uint64_t s0 = c.behind ? u.next_seq() : 0;
       int r = vbi_capture_pull_sliced(c.cap, &sb, &tv);
+      if (c.behind && u.k.now_ns() > t0 && !c.iv.empty()) {   // this read had to wait: the backlog is consumed, the client keeps up again
+        HarnessScope hs; c.iv.back().inattentive.push_back({c.behind_from, s0}); c.behind = false; u.ctx.count("client_caught_up_after_stall");
+      }
       if (r > 0) {
         HarnessScope hs;
         Recv rv; rv.ts = sb->timestamp; rv.seq = u.next_seq();
@@ -517,7 +530,7 @@ struct ClientRunner {
     u.ctx.log("client %d: stalls %d ms", c.idx, ms);
     u.sched.sleep_ns((int64_t)ms * 1000000);
     uint64_t b = u.next_seq();
-    if (c.connected && !c.iv.empty()) { HarnessScope hs; c.iv.back().inattentive.push_back({a, b}); }
+    if (c.connected && !c.iv.empty()) inattentive(a, b);
     u.ctx.count("fault_client_stall");
   }
   void do_update(int svc, int strict, bool reset) {
@@ -563,7 +576,7 @@ struct ClientRunner {
     u.ctx.log("client %d: channel request prio=%d sub=%d min=%d valid=%d", c.idx, prio, subprio, min_dur, valid);
     int r = vbi_proxy_client_channel_request(c.vpc, (VBI_CHN_PRIO)prio, &prof);
     uint64_t b = u.next_seq();
-    if (!c.iv.empty()) { HarnessScope hs; c.iv.back().inattentive.push_back({a, b}); }
+    if (!c.iv.empty()) inattentive(a, b);
     if (r < 0) { drop("channel request"); return; }
     u.ctx.log("client %d: channel request -> %d", c.idx, r);
     u.ctx.count(r > 0 ? "token_granted_at_once" : "token_requests_pending");
@@ -576,7 +589,7 @@ struct ClientRunner {
     int r = vbi_proxy_client_channel_notify(c.vpc, (VBI_PROXY_CHN_FLAGS)flags, 0);
     uint64_t b = u.next_seq();
     if (flags & VBI_PROXY_CHN_FLUSH) { HarnessScope hs; u.flushes.push_back({b, (double)u.k.epoch_s + (double)u.k.now_ns() / 1e9}); }
-    if (!c.iv.empty()) { HarnessScope hs; c.iv.back().inattentive.push_back({a, b}); }
+    if (!c.iv.empty()) inattentive(a, b);
     if (r < 0) { drop("channel notify"); return; }
     u.ctx.count("token_notifies");
   }
@@ -603,7 +616,7 @@ struct ClientRunner {
         uint64_t a = u.next_seq();
         u.sched.sleep_ns((now / g + 1) * g - now);
         uint64_t b = u.next_seq();
-        if (c.connected && !c.iv.empty()) { HarnessScope hs; c.iv.back().inattentive.push_back({a, b}); }  // not reading while it waits
+        if (c.connected && !c.iv.empty()) inattentive(a, b);  // not reading while it waits
         u.ctx.count("client_sync_points");
       }
       else if (op.kind == "token") do_token_req(1 + (int)absmod(op.arg(0), 3), (int)absmod(op.arg(1), 0x50), (int)absmod(op.arg(2), 4), (int)op.arg(3, 1));
